@@ -3,7 +3,7 @@ CONSTANTS
   ADDRS = {1, 2, 3, 4}
   SELF = 9
   LL = 2
-  BUDGET = 4
+  BUDGET = 5
   VARIANT = "fixed"
   IGNORE = {}
 INVARIANT Inv
